@@ -37,7 +37,8 @@ Inductive expr :=
 | Add (a b : expr) | Lt (a b : expr) | Ite (c a b : expr)
 | Wr (s : nat) (e : expr).    (* s.set(e), effects only; value of e *)
 
-Inductive cmp := CNe | CAlways.                    (* Memo::new / new_with_compare(|_,_| true) *)
+Inductive cmp := CNe | CAlways | CPar.             (* Memo::new / new_with_compare(|_,_| true) /
+                                                      new_with_compare(parity differs): a comparator coarser than equality *)
 Inductive ekind := EEffect | ERender | EWatch (immediate : bool).
 Inductive decl :=
 | DSig (take : bool) (init : Z)    (* take: WriteSignal / ArcTrigger path (pre-fix it took the subscribers) *)
@@ -286,6 +287,7 @@ Definition memo_update (c : ctx) (i : nat) (cm : cmp) (e : expr) (s : state) : s
     let changed := match cm with
                    | CAlways => true
                    | CNe => match old with Some o => negb (Z.eqb o v) | None => true end
+                   | CPar => match old with Some o => negb (Bool.eqb (Z.even o) (Z.even v)) | None => true end
                    end in
     let s := updn i (fun n => set_st (set_cache n (Some v)) Clean) s in
     let s := if changed then
